@@ -1,6 +1,8 @@
 package main
 
 import (
+	"strings"
+
 	"verif/engine/sym"
 )
 
@@ -166,8 +168,8 @@ func init() {
 	}
 
 	grids["C14"] = &gridDef{
-		explain:     "the real Report pipeline of each strategy runs on n symbolic snapshots with distinct dates; the date stream and the stream behind every column are drained concurrently; every column must supply exactly one value per date row and be closed afterwards, rows must be consecutive dates ending at the last snapshot, and the Close / annotation / Outcome (and stated indicator) columns must carry the values for their row's date",
-		bounds:      func(t string) string { return stratBounds + " (small configurations); n = w_s + 1..2 (thorough: ..4)" },
+		explain:     "the real Report pipeline of each strategy runs on n symbolic snapshots with distinct dates; the date stream and the stream behind every column are drained concurrently; every column must supply exactly one value per date row and be closed afterwards, (second harness, H_C14_Value: the report is consumed as the report writer does it — per date row one Value() call per column, in lock-step behind a permit-gated tap — and every call must take exactly one value, no column may be exhausted early, none may have values left; zero-denominator variants (@zeroden1: one division per path may have a zero denominator and then yields the IEEE special value chosen by forking on the numerator sign) cover NaN / Inf values flowing into the columns), rows must be consecutive dates ending at the last snapshot, and the Close / annotation / Outcome (and stated indicator) columns must carry the values for their row's date",
+		bounds:      func(t string) string { return stratBounds + " (small configurations); n = w_s + 1..2 (thorough: ..4); lock-step Value() harness: first configuration, n = w_s + 2 (and w_s + 3 with one zero denominator per path)" },
 		outside:     "HTML rendering (text/template), default period configurations, the compound/decorator reports (same three generic columns; covered for And/Or/Majority/Split via C03)",
 		assumptions: append([]string{realModeNote, "column streams are read through the unexported `values` field (executor: direct; native replay: reflect+unsafe)", "annotation strings are SMT strings"}, commonAssumptions...),
 		cases: func(tier string, pr *prober) []sym.CaseSpec {
@@ -194,6 +196,16 @@ func init() {
 					}
 					if !s.heavy && ci == 0 {
 						c := css("H_C14", s, cfg, 2)
+						c.ZeroDen = 1
+						out = append(out, c)
+						// the report consumed the way the writer does it: one Value() per column per date row
+						out = append(out, css("H_C14_Value", s, cfg, 2, 0))
+						if !strings.HasPrefix(s.name, "Comp") || tier == "thorough" {
+							c = css("H_C14_Value", s, cfg, 3, 0)
+							c.ZeroDen = 1
+							out = append(out, c)
+						}
+						c = css("H_C14_Value", s, cfg, 2, 1) // zero prices (missing quotes)
 						c.ZeroDen = 1
 						out = append(out, c)
 					}
